@@ -514,15 +514,26 @@ func c12r3(c *core.Ctx) {
 		// getter
 		if g := p.Func("characteristic", "(*"+wrapper+").GetValue"); g != nil {
 			ok, n := true, 0
+			tolerant := true
 			core.Instrs(g, func(i ssa.Instruction) {
-				if ta, isTA := i.(*ssa.TypeAssert); isTA && !ta.CommaOk {
+				if ta, isTA := i.(*ssa.TypeAssert); isTA {
 					n++
 					if !types.Identical(ta.AssertedType, want) {
 						ok = false
 					}
+					x := ta.X
+					if !ta.CommaOk && !core.Dominated(ta, core.NonNilFact(func(v ssa.Value) bool { return v == x })) {
+						tolerant = false
+					}
 				}
 			})
 			c.Check(ok && n > 0, "getter:"+wrapper+".GetValue", g.Pos(), fmt.Sprintf("asserts %s, the type convert yields for its formats", want), fmt.Sprintf("%s.GetValue asserts a different type than convert yields (%s): the getter panics", wrapper, want))
+			// "the typed getters never fail" includes the empty history: a characteristic made by the generic constructor, or a
+			// write-only one (Identify, the camera's setup endpoints…), stores nil until something is set; an unchecked assertion on nil panics.
+			if n > 0 {
+				c.Check(tolerant, "getter-tolerates-no-value:"+wrapper+".GetValue", g.Pos(), "the assertion on the stored value is checked (no value stored reads as the zero value)",
+					wrapper+".GetValue asserts the type of the stored value unchecked: on a characteristic that holds no value yet (the generic constructor, every write-only characteristic) the stored value is nil and the getter panics")
+			}
 		} else {
 			c.Undecided("getter:"+wrapper, token.NoPos, "GetValue not found")
 		}
